@@ -45,6 +45,26 @@ Proof.
 Qed.
 Print Assumptions C03_sync_no_success_without_commit.
 
+(* Once any storage operation has failed (payload write of any rank, or the metadata write), NO rank returns normally
+   in any continuation of the run: the failed rank never arrives at the barrier behind the metadata write, so nobody
+   passes it.  The model includes process-group timeouts (ATimeout: a rank blocked in a barrier may give up at any
+   time, also spuriously); every theorem of this file holds with them. *)
+Theorem C03_sync_failure_means_nobody_returns : forall (ns : list nat) (evs1 evs2 : list (nat * action)) r g',
+  act gen_take_tail (run gen_take_tail ns evs1) r AFail = Some g' ->
+  forall x, In x (ranks (run gen_take_tail ns (evs1 ++ (r, AFail) :: evs2))) -> returned x = false.
+Proof.
+  intros ns evs1 evs2 r g' Hact.
+  destruct (well_ordered_positions gen_take_tail take_tail_well_ordered) as (c & b1 & m & b2 & Hpos).
+  exact (failure_means_nobody_returns gen_take_tail c b1 m b2 Hpos ns evs1 r evs2 g' Hact).
+Qed.
+Print Assumptions C03_sync_failure_means_nobody_returns.
+
+(* ... and a peer that gives up waiting raises: with timeouts, every rank that terminates after a failure reports it *)
+Theorem C03_sync_timeout_raises : forall g r g',
+  act gen_take_tail g r ATimeout = Some g' -> raised (nth r (ranks g') dflt) = true.
+Proof. exact (timeout_raises gen_take_tail). Qed.
+Print Assumptions C03_sync_timeout_raises.
+
 From TS Require Import model.Barrier proofs.BarrierProofs proofs.BarrierInst.
 
 (* ASYNCHRONOUS take: any fault in a snapshot's plan (some rank's payload I/O fails, or the leader's metadata
@@ -75,4 +95,12 @@ Example C03_example_metadata_failure :
               (1, APass); (1, AReturn)] in
   let g := run gen_take_tail [1; 1] evs in
   map (fun x => (raised x, returned x)) (ranks g) = [(true, false); (false, false)] /\ meta_complete g = false.
+Proof. vm_compute. split; reflexivity. Qed.
+
+(* with timeouts: rank 1's payload write fails, rank 0 waits in the first barrier, gives up and raises *)
+Example C03_example_timeout :
+  let evs := [(0, AWBegin); (1, AWBegin); (1, AFail); (0, AWEnd); (0, AAdvance); (0, AArrive); (0, APass); (0, ATimeout);
+              (0, AReturn)] in
+  let g := run gen_take_tail [1; 1] evs in
+  map (fun x => (raised x, returned x)) (ranks g) = [(true, false); (true, false)] /\ meta_started g = false.
 Proof. vm_compute. split; reflexivity. Qed.
